@@ -20,7 +20,7 @@ git diff --stat
 echo "-- demo with change (expect FAIL / rc 1)"
 /venv/bin/python demo.py > /tmp/confirm/$ID.demo1.txt 2>&1; RC1=$?; tail -5 /tmp/confirm/$ID.demo1.txt; echo "rc=$RC1"
 echo "-- full suite with change"
-python3 /verif/tools/run_baseline.py --jobs ${JOBS:-12} --repo "$WT" | tail -4; RCS=$?
+python3 /verif/tools/run_baseline.py --jobs ${JOBS:-12} --repo "$WT" | tail -12; RCS=$?
 echo "SUMMARY demo_without=$RC0 demo_with=$RC1"
 } > "$LOG" 2>&1
 cd /
